@@ -64,12 +64,16 @@ func runOne(t *testing.T, sc *Scenario, tape *simrt.Tape, tier string, wantTrace
 	var res simrt.RunResult
 	var oracle func(simrt.RunResult) []simrt.Violation
 	finished := false
+	leftBehind := false
 	func() {
 		defer func() {
 			if r := recover(); r != nil {
 				msg := fmt.Sprint(r)
 				if finished && strings.Contains(msg, "deadlock: main bubble goroutine has exited") {
-					return // tasks left behind by an aborted / deadlocked run; already judged
+					// goroutines are still blocked inside the bubble: expected after an aborted or
+					// deadlocked run (already judged), a leak after a run that ended normally
+					leftBehind = true
+					return
 				}
 				if !finished {
 					out.Inconclusive = "harness panic: " + msg
@@ -125,6 +129,9 @@ func runOne(t *testing.T, sc *Scenario, tape *simrt.Tape, tier string, wantTrace
 	}
 	if res.Livelock {
 		vs = append(vs, simrt.Violation{Rule: "livelock", Msg: fmt.Sprintf("%d scheduler steps without the clock moving; tasks: %s", s.LivelockSteps, strings.Join(res.Blocked, "; "))})
+	}
+	if leftBehind && !res.Aborted && !res.Deadlock && !res.Livelock && !res.StepBudget && !res.VirtBudget {
+		vs = append(vs, simrt.Violation{Rule: "goroutine-leak", Msg: fmt.Sprintf("every call, Close and Serve of the run has returned and every harness task has finished, but goroutines are still blocked inside the simulation (testing/synctest: blocked goroutines remain); goroutines not started by the scheduler that reached instrumented code: %d", s.Adopted)})
 	}
 	if oracle != nil && out.Inconclusive == "" && !res.Aborted {
 		vs = append(vs, oracle(res)...)
